@@ -5,6 +5,12 @@ VERIF = os.path.dirname(os.path.dirname(os.path.abspath(__file__)))
 ALL = ["C%02d" % i for i in range(1, 21)]
 
 CHECKS = {
+ "C03": dict(engine="H", technique="explicit-state BFS over fd-event operation histories x callback scripts on real pipes/socketpairs, each history executed on both back-ends in a forked child under ASan with de-pooled per-fd records; differential epoll-vs-select oracle",
+   text="Every history up to the depth of enable/disable/feed/drain/loop-pass over 3 event configurations (shared descriptors, R/W/R|W masks, one-shot) and 34 in-callback mutation scripts (disable/enable/destroy siblings and events on other ready descriptors, create a new event, close) is run on epoll and select; callbacks are judged against the harness' own enabled/alive model and a poll() readiness snapshot; crashes, sanitizer reports and exceptions are violations.",
+   note="Trusted: poll(fd,0) snapshot as readiness ground truth, ASan; bounds: 3 descriptors, 3+1 events, one script per run, depth 4 (quick) / 6 (thorough); fd-number reuse within a pass not modelled.", ref="2/C03"),
+ "C11": dict(engine="H", technique="exhaustive enumeration of module-tree programs x per-program BFS over root call sequences with canonical-state dedup (fixpoint reached), hook-log oracle; dedup cross-checked by plain enumeration",
+   text="Every module tree up to 4/5 nodes with every required/optional, named/unnamed and ok/init-fails/start-fails assignment is driven through every sequence of initialize/start/stop/cleanup (BFS to a fixpoint of canonical states) and finished by cleanup+destroy; nesting order, start/stop preconditions, balance and optional-failure isolation are judged from the probe hook log alone.",
+   note="Trusted: the hook-log automaton oracle; Context is a null fake (Module never dereferences it); hook result fixed per program.", ref="2/C11"),
  "C02": dict(engine="H", technique="explicit-state BFS over timer operation histories on the real loop under a virtual monotonic clock (interposed clock_gettime), canonical-state dedup, per-timer deadline reference model, ASan with de-pooled timer records",
    text="Every history up to the depth of enable/disable/destroy/reinit and clock advances (including waking several periods late and equal deadlines) on 3-4 real TimerEvents whose callbacks disable/destroy/enable/restart themselves or others, and of doEvery/doAfter/cancel/cleanup on the real TimerPool, is executed on both back-ends; the oracle runs inside every callback (never early, deadline order, never on a disabled/destroyed timer) and after every pass (no due period left unfired, isEnabled agrees).",
    note="Trusted: the 20-line deadline model, interposed clock (libstdc++ steady_clock -> clock_gettime), ASan; bounds: <=4 timers, depth 5 (quick) / 7 (thorough), advances in {0,1,2,3,7} ms.", ref="2/C02"),
